@@ -261,38 +261,54 @@ Section MerkleProofs.
              rewrite <- (parent_even_single l i Eo Hi ltac:(lia)). exact IHp.
   Qed.
 
-  Lemma play_index ls rl : forall i h ps j h',
-    play ls rl i h ps = Some (j, h') -> skip_rows ls rl i = j.
+  (* the None path succeeds only where playing the empty proof succeeds, with the same index and no hashing *)
+  Lemma skip_play ls rl : forall i h j,
+    skip_rows ls rl i = Some j -> play ls rl i h [] = Some (j, h).
   Proof.
-    induction ls as [|layer rest IH]; intros i h ps j h' H; cbn [Merkle.play skip_rows] in *.
+    induction ls as [|layer rest IH]; intros i h j H; cbn [Merkle.play skip_rows] in *.
     - congruence.
     - destruct (layer =? rl); [congruence|].
-      destruct (Nat.odd i).
-      + destruct (i - 1 <? layer); [destruct ps; [discriminate|]|]; eapply IH; exact H.
-      + destruct (i + 1 <? layer); [destruct ps; [discriminate|]|]; eapply IH; exact H.
+      destruct (Nat.odd i); cbn [orb] in H; [discriminate|].
+      destruct (i + 1 <? layer); [discriminate|]. apply IH. exact H.
   Qed.
 
-  Lemma play_nil ls rl : forall i h j h',
-    play ls rl i h [] = Some (j, h') -> h' = h.
-  Proof.
-    induction ls as [|layer rest IH]; intros i h j h' H; cbn [Merkle.play] in *.
-    - congruence.
-    - destruct (layer =? rl); [congruence|].
-      destruct (Nat.odd i).
-      + destruct (i - 1 <? layer); [discriminate|]. eapply IH; exact H.
-      + destruct (i + 1 <? layer); [discriminate|]. eapply IH; exact H.
-  Qed.
-
-  (* the `None` path only moves the index: it ends on the row node above the leaf *)
-  Lemma skip_rows_spec : forall f l i m,
+  (* when the generated proof is empty the None path reaches the row node above the leaf *)
+  Lemma skip_complete : forall f l i m,
     i < length l -> length l <= f ->
     let Ls := layers_f f l in
     let r := Nat.min m (length Ls - 1) in
-    skip_rows (map (@length bytes) Ls) (length (nth r Ls [])) i = i / 2 ^ r.
+    proof_f Ls i m = [] ->
+    skip_rows (map (@length bytes) Ls) (length (nth r Ls [])) i = Some (i / 2 ^ r).
   Proof.
-    intros f l i m Hi Hf Ls r.
-    destruct (complete_gen f l i m [] Hi Hf) as [H _]. fold Ls r in H.
-    apply play_index in H. exact H.
+    induction f as [|f IH]; intros l i m Hi Hf; [lia|].
+    cbn zeta. cbn [Merkle.layers_f].
+    destruct (length l <=? 1) eqn:E1.
+    - cbn [length Nat.sub map skip_rows nth]. rewrite Nat.min_0_r. cbn [nth].
+      rewrite Nat.eqb_refl. cbn [Nat.pow]. rewrite Nat.div_1_r. reflexivity.
+    - assert (Hl : 2 <= length l) by lia.
+      set (Ls' := layers_f f (parent l)).
+      pose proof (layers_f_length_pos f (parent l)) as Hpos. fold Ls' in Hpos.
+      destruct m as [|m].
+      + cbn [Nat.min nth map skip_rows]. rewrite Nat.eqb_refl. cbn [Nat.pow]. rewrite Nat.div_1_r. reflexivity.
+      + replace (Nat.min (S m) (length (l :: Ls') - 1)) with (S (Nat.min m (length Ls' - 1)))
+          by (cbn [length]; lia).
+        set (r' := Nat.min m (length Ls' - 1)).
+        cbn [nth]. set (row := nth r' Ls' []).
+        assert (Hrow : length row < length l) by (apply nth_layers_lt; [exact Hl | fold Ls'; unfold r'; lia]).
+        assert (Hhalf : i / 2 < length (parent l)) by (rewrite parent_length; apply half_lt; exact Hi).
+        assert (Hfuel : length (parent l) <= f)
+          by (rewrite parent_length; pose proof (pcnt_lt _ Hl); lia).
+        cbn [map skip_rows Merkle.proof_f].
+        replace (length l =? length row) with false by (symmetry; apply Nat.eqb_neq; lia).
+        replace (i / 2 ^ S r') with (i / 2 / 2 ^ r')
+          by (rewrite Nat.div_div by (try apply Nat.pow_nonzero; lia); reflexivity).
+        destruct (Nat.odd i) eqn:Eo.
+        * replace (i - 1 <? length l) with true by (symmetry; apply Nat.ltb_lt; lia).
+          cbn [app]. discriminate.
+        * destruct (i + 1 <? length l) eqn:E2; [cbn [app]; discriminate|].
+          cbn [app orb]. intro Hp.
+          pose proof (IH (parent l) (i / 2) m Hhalf Hfuel) as IH'. cbn zeta in IH'.
+          fold Ls' in IH'. fold r' in IH'. fold row in IH'. apply IH'. exact Hp.
   Qed.
 
   Lemma proof_f_min : forall f l i m,
@@ -428,10 +444,12 @@ Section MerkleProofs.
         destruct (N.of_nat (length leaves) <=? N.of_nat i)%N eqn:E; [lia|].
         rewrite Nat2N.id. rewrite <- gen_tree_layout.
         destruct (complete_gen (length leaves) leaves i m [] Hi (le_n _)) as [Hp Hb].
+        pose proof (skip_complete (length leaves) leaves i m Hi (le_n _)) as Hs. cbn zeta in Hs.
         unfold Merkle.stored_row, Merkle.row_index, Merkle.gen_tree in *.
+        specialize (Hs Ep). rewrite Hs.
         rewrite Ep in Hp. cbn [app] in Hp.
-        pose proof (play_index _ _ _ _ _ _ _ Hp) as Hidx. pose proof (play_nil _ _ _ _ _ _ Hp) as Hh.
-        rewrite Hidx. apply hash_check_true. rewrite <- Hh. apply nth_error_nth_d. exact Hb.
+        rewrite (skip_play _ _ _ (nth i leaves []) _ Hs) in Hp. injection Hp as Hh.
+        apply hash_check_true. rewrite Hh. apply nth_error_nth_d. exact Hb.
       + cbn [wrap_proof]. rewrite <- Ep.
         pose proof (complete_surplus leaves m i [] Hi) as H. rewrite app_nil_r in H. exact H.
   Qed.
@@ -457,60 +475,35 @@ Section MerkleProofs.
       rewrite (proof_f_min (length leaves) leaves i m Hi (le_n _)). exact He.
   Qed.
 
-  Lemma none_char : forall leaves m h loc,
-    check (length leaves) (stored_row leaves m) h loc None = true <->
-    (loc < N.of_nat (length leaves))%N
-    /\ nth_error (stored_row leaves m) (N.to_nat loc / 2 ^ row_index leaves m) = Some h.
+  (* an absent proof is accepted only where the empty proof is: the None path adds nothing to the Some path
+     (any count, any row) *)
+  Lemma none_as_empty : forall n row h loc,
+    check n row h loc None = true -> check n row h loc (Some []) = true.
   Proof.
-    intros leaves m h loc. unfold check_merkle_tree.
-    destruct (N.of_nat (length leaves) <=? loc)%N eqn:E.
-    - split; [discriminate|]. intros [H _]. lia.
-    - assert (Hi : N.to_nat loc < length leaves) by lia.
-      rewrite <- gen_tree_layout.
-      pose proof (skip_rows_spec (length leaves) leaves (N.to_nat loc) m Hi (le_n _)) as Hs. cbn zeta in Hs.
-      unfold Merkle.stored_row, Merkle.row_index, Merkle.gen_tree in *. rewrite Hs.
-      rewrite hash_check_true. split; [intro H; split; [lia|exact H] | intros [_ H]; exact H].
+    intros n row h loc H. unfold check_merkle_tree in *.
+    destruct (N.of_nat n <=? loc)%N; [discriminate|].
+    destruct (skip_rows (layout n) (length row) (N.to_nat loc)) as [j|] eqn:Es; [|discriminate].
+    rewrite (skip_play _ _ _ h _ Es). exact H.
   Qed.
-
-  (* the None path accepts the stored row node above leaf i as if it were leaf i *)
-  Lemma none_accepts_row_node : forall leaves m i,
-    i < length leaves ->
-    check (length leaves) (stored_row leaves m)
-          (nth (i / 2 ^ row_index leaves m) (stored_row leaves m) []) (N.of_nat i) None = true.
-  Proof.
-    intros leaves m i Hi. apply none_char. split; [lia|]. rewrite Nat2N.id.
-    destruct (complete_gen (length leaves) leaves i m [] Hi (le_n _)) as [_ Hb].
-    unfold Merkle.stored_row, Merkle.row_index, Merkle.gen_tree in *.
-    apply nth_error_nth_d. exact Hb.
-  Qed.
-
-  (* F-MERKLE-NONE: proof = None against a row above the leaves *)
-  Definition known_none (leaves : list bytes) (m : nat) (proof : option (list bytes)) : Prop :=
-    proof = None /\ 0 < row_index leaves m.
 
   Lemma sound : forall leaves m h loc proof,
-    ~ known_none leaves m proof ->
     check (length leaves) (stored_row leaves m) h loc proof = true ->
-    (loc < N.of_nat (length leaves))%N /\ (collision \/ h = nth (N.to_nat loc) leaves []).
+    (loc < N.of_nat (length leaves))%N
+    /\ (collision \/ (h = nth (N.to_nat loc) leaves []
+                      /\ exists extra, match proof with Some ps => ps | None => [] end
+                                       = proof_f (gen_tree leaves) (N.to_nat loc) m ++ extra)).
   Proof.
-    intros leaves m h loc [ps|] Hk H.
-    - destruct (sound_some _ _ _ _ _ H) as [Hr [C | [Hh _]]]; (split; [exact Hr|]); [left; exact C | right; exact Hh].
-    - assert (Hr0 : row_index leaves m = 0) by (unfold known_none in Hk; destruct (row_index leaves m); [reflexivity|exfalso; apply Hk; split; [reflexivity|lia]]).
-      apply none_char in H. destruct H as [Hr H]. split; [exact Hr|]. right.
-      rewrite Hr0 in H. cbn [Nat.pow] in H. rewrite Nat.div_1_r in H.
-      unfold Merkle.stored_row in H. rewrite Hr0 in H.
-      unfold Merkle.gen_tree in H. destruct (length leaves) as [|n] eqn:El; [lia|].
-      cbn [Merkle.layers_f nth] in H.
-      rewrite (nth_error_nth_d leaves (N.to_nat loc)) in H by lia. congruence.
+    intros leaves m h loc [ps|] H.
+    - exact (sound_some _ _ _ _ _ H).
+    - exact (sound_some _ _ _ _ _ (none_as_empty _ _ _ _ H)).
+  Qed.
+
+  (* so an absent proof is accepted only when the generated proof is empty (or a collision is exhibited) *)
+  Lemma none_only_when_empty : forall leaves m h loc,
+    check (length leaves) (stored_row leaves m) h loc None = true ->
+    collision \/ (h = nth (N.to_nat loc) leaves [] /\ proof_f (gen_tree leaves) (N.to_nat loc) m = []).
+  Proof.
+    intros leaves m h loc H. destruct (sound _ _ _ _ _ H) as [_ [C | [Hh [extra He]]]]; [left; exact C|].
+    right. split; [exact Hh|]. symmetry in He. apply app_eq_nil in He. apply He.
   Qed.
 End MerkleProofs.
-
-(* concrete witness of F-MERKLE-NONE on the evaluation instance of the node hash *)
-Lemma none_refuted :
-  exists leaves m h loc,
-    check_merkle_tree Hsym (length leaves) (stored_row Hsym leaves m) h loc None = true
-    /\ h <> nth (N.to_nat loc) leaves [].
-Proof.
-  exists [[1]; [2]; [3]; [4]]%N, 1, (Hsym [1]%N [2]%N), 0%N. split; [vm_compute; reflexivity|].
-  vm_compute. discriminate.
-Qed.
